@@ -122,8 +122,8 @@ func (or *Orchestrator) Service() *Service {
 					go func(ss *Service) {
 						defer wg.Done()
 						// the service runs on a context of its own:
-					// wait until it has actually returned.
-					ec.Add(ss.Wait())
+						// wait until it has actually returned.
+						ec.Add(ss.Wait())
 					}(s)
 					continue
 				}
